@@ -381,9 +381,24 @@ FUSE_NOT_APPLICABLE = {
 }
 
 
+# std's documented definitions of the ASCII classes (core::char / u8 methods), as predicates on the code point
+STD_CHAR_CLASSES = {
+    "is_ascii": lambda c: c < 0x80,
+    "is_ascii_graphic": lambda c: 0x21 <= c <= 0x7E,
+    "is_ascii_whitespace": lambda c: c in (0x20, 0x09, 0x0A, 0x0C, 0x0D),
+    "is_ascii_control": lambda c: c <= 0x1F or c == 0x7F,
+    "is_ascii_punctuation": lambda c: (0x21 <= c <= 0x2F) or (0x3A <= c <= 0x40) or (0x5B <= c <= 0x60) or (0x7B <= c <= 0x7E),
+    "is_ascii_hexdigit": lambda c: chr(c) in "0123456789abcdefABCDEF",
+    "is_ascii_lowercase": lambda c: 0x61 <= c <= 0x7A,
+    "is_ascii_uppercase": lambda c: 0x41 <= c <= 0x5A,
+}
+
+
 def eval_char_fn(fn_body, params, a, b):
     """Evaluate the pure char->bool match of should_break_with_space for characters a, b by pattern expansion."""
-    env = {params[0]: ord(a), params[1]: ord(b)}
+    env = {params[0]: a if isinstance(a, int) else ord(a)}
+    if len(params) > 1:
+        env[params[1]] = b if isinstance(b, int) else ord(b)
 
     def pat(p, v):
         k = p.get("k")
@@ -412,8 +427,13 @@ def eval_char_fn(fn_body, params, a, b):
             v = e["v"]
             if v in ("true", "false"):
                 return v == "true"
-            import ast
+            import ast, re
+            mb = re.fullmatch(r"Byte\((\d+)\)", v)
+            if mb:
+                return int(mb.group(1))
             s = ast.literal_eval(v)
+            if isinstance(s, bytes) and len(s) == 1:
+                return s[0]
             return ord(s) if isinstance(s, str) and len(s) == 1 else s
         if k == "Block" and not e["stmts"] and "tail" in e:
             return val(e["tail"])
@@ -437,6 +457,8 @@ def eval_char_fn(fn_body, params, a, b):
             f = e.get("fname")
             x = val(e["args"][0]) if e["args"] else None
             ch = chr(x) if isinstance(x, int) else None
+            if f in STD_CHAR_CLASSES and isinstance(x, int):
+                return STD_CHAR_CLASSES[f](x)
             if f == "is_ascii_alphanumeric":
                 return ch.isascii() and ch.isalnum()
             if f == "is_ascii_digit":
